@@ -176,6 +176,7 @@ class Gen:
         self.w = None
         self.left = 0
         self.stats = Counter()
+        self.depths = [2, 3, 3, 4]
 
     def world(self):
         if self.left <= 0:
@@ -276,7 +277,7 @@ class Gen:
         e = None
         for _attempt in range(25):
             free = [w.fresh_var(rng.choice(w.all_types())) for _ in range(rng.choice([0, 1, 1, 2]))]
-            depth = rng.choice([2, 3, 3, 4])
+            depth = rng.choice(self.depths)
             if rng.random() < 0.12 and not need_q:
                 e = self.retry(lambda: w.gen_num(depth, tuple(free)))
             else:
@@ -404,8 +405,10 @@ def demote(x, is_key):
         return x.object()
     if x.is_bool_constant():
         return x.bool_constant_value()
-    if x.is_int_constant() or x.is_real_constant():
+    if x.is_int_constant():
         return x.constant_value()
+    if x.is_real_constant() and x.constant_value().denominator != 1:
+        return x.constant_value()           # an integral Real node would come back as an Int node: keep the FNode
     return x
 
 
@@ -431,10 +434,12 @@ def run(ctx):
 
     ok_proofs = ctx.check_props(extra=["theories/Corr/Corr_C13.v"])
     rng = ctx.rng
-    n_good = 330 if ctx.quick else 7000
-    n_bad = 90 if ctx.quick else 1500
+    n_good = 330 if ctx.quick else 2400
+    n_bad = 90 if ctx.quick else 480
     n_interp = 3 if ctx.quick else 4
     gen = Gen(rng, World)
+    if not ctx.quick:
+        gen.depths = [2, 3, 3, 4, 4, 5]
     cases, raw = [], []
     dist = Counter()
     distinct = set()
@@ -604,7 +609,7 @@ def run(ctx):
         return fails, cnt
 
     bad, counts = [], [0, 0, 0]
-    with ThreadPoolExecutor(max_workers=4) as ex:
+    with ThreadPoolExecutor(max_workers=2) as ex:
         for fails, cnt in ex.map(one, shards):
             bad += fails
             counts = [a + b for a, b in zip(counts, cnt)]
